@@ -10,4 +10,4 @@ Extraction "modelx.ml"
   at_ group_idx group_at param_idx param_at point_idx channel_idx
   h_nb_analogs h_nb_frames hex2uint hex2int rtrim inv_report_of inv_b mt_b load_x save_x save_io
   heap0 h_new h_set h_view h_mut_pt h_add_pt h_mut_ch h_add_ch d_mut_pt d_mut_ch
-  ls_ok_x ls4_ok_x ls_flags_x cert_ok_x cert_flags_x.
+  ls_ok_x ls4_ok_x ls_flags_x cert_ok_x cert_flags_x lsn_ok_x ls4n_ok_x lsn_flags_x.
